@@ -185,11 +185,15 @@ def generate(rng, tier):
         sep = rng.choice(SEPS)
         am = [rng.choice([1, 2, 3, 5, 12, 0.5, 250]) for _ in range(m)]
         total, text = Fr(am[0]), qty(rng, am[0], us[0], sep)
+        biggest = abs(total)
         for a, u in zip(am[1:], us[1:]):
             op = "+" if rng.random() < 0.75 else "-"
             bv = Fr(a) * u["size"] / us[0]["size"]
             total = total + bv if op == "+" else total - bv
+            biggest = max(biggest, abs(bv), abs(total))
             text += " " + op + " " + qty(rng, a, u, sep)
+        if total == 0 or biggest > abs(total) * 1024:
+            continue                      # cancellation: binary64 absorbs the small terms, the exact oracle does not apply
         cases.append(exec_case(text, "en", pre=pre_of(sep), kind="qty-sum-%d" % m, typ="qty", expect=frac(total), unit=us[0]["key"]))
     for text, val, key in (("1 cm + 5 m + 5 m + 1 km", 1 + 500 + 500 + 100000, "cm"), ("1 byte + 2 kb + 2 kb + 1 mb", 1 + 2048 + 2048 + 1048576, "byte"),
                            ("1 oz + 3 lb + 3 lb + 1 stone", 1 + 48 + 48 + 224, "oz")):
